@@ -10,37 +10,71 @@ Open Scope Z_scope.
 Lemma commit_info_start_ok : unix_nanos gen_commit_info_start_args = Some 1347442203000000000.
 Proof. vm_compute. reflexivity. Qed.
 
-Lemma gen_less_index_ok : forall a b, gen_less_index a b = less a b.
-Proof.
-  intros a b. unfold gen_less_index, less.
-  destruct (Nat.eqb (u_index a) (u_index b)) eqn:E.
-  - apply Nat.eqb_eq in E. rewrite E, Z.eqb_refl. cbn [negb].
-    destruct (u_timestamp a =? u_timestamp b) eqn:Et; cbn [negb].
-    + apply Z.eqb_eq in Et. rewrite Et, Z.ltb_irrefl. reflexivity.
-    + apply Z.eqb_neq in Et. destruct (u_timestamp a <? u_timestamp b) eqn:E1; [reflexivity|].
-      assert (u_timestamp b <? u_timestamp a = true) as -> by lia. reflexivity.
-  - apply Nat.eqb_neq in E.
-    assert (Z.of_nat (u_index a) =? Z.of_nat (u_index b) = false) as -> by lia. cbn [negb].
-    destruct (Nat.ltb (u_index a) (u_index b)) eqn:El.
-    + apply Nat.ltb_lt in El. lia.
-    + apply Nat.ltb_ge in El. lia.
-Qed.
+(* ------------------------------------------------------------------------- *)
+(* SEMANTIC proofs: the obligations below do not depend on the shape of the generated terms
+   (order of tests, inverted conditions with swapped branches, early continue / return, switch vs
+   if chains, helper functions, renamed locals).  Both sides are decision trees over the same
+   atomic comparisons: [tree] splits on every atomic test that is still in the goal, simplifies,
+   and closes each leaf by reflexivity, or by linear arithmetic when the branch is contradictory. *)
 
-Lemma gen_update_timestamp_ok : forall cis ts com, gen_update_timestamp cis ts com = update_timestamp cis ts com.
-Proof. reflexivity. Qed.
+Ltac b2p :=
+  repeat match goal with
+  | H : (_ <? _) = true |- _ => apply Z.ltb_lt in H
+  | H : (_ <? _) = false |- _ => apply Z.ltb_ge in H
+  | H : (_ <=? _) = true |- _ => apply Z.leb_le in H
+  | H : (_ <=? _) = false |- _ => apply Z.leb_gt in H
+  | H : (_ >? _) = true |- _ => rewrite Z.gtb_ltb in H; apply Z.ltb_lt in H
+  | H : (_ >? _) = false |- _ => rewrite Z.gtb_ltb in H; apply Z.ltb_ge in H
+  | H : (_ >=? _) = true |- _ => rewrite Z.geb_leb in H; apply Z.leb_le in H
+  | H : (_ >=? _) = false |- _ => rewrite Z.geb_leb in H; apply Z.leb_gt in H
+  | H : (_ =? _) = true |- _ => apply Z.eqb_eq in H
+  | H : (_ =? _) = false |- _ => apply Z.eqb_neq in H
+  | H : Nat.eqb _ _ = true |- _ => apply Nat.eqb_eq in H
+  | H : Nat.eqb _ _ = false |- _ => apply Nat.eqb_neq in H
+  | H : Nat.ltb _ _ = true |- _ => apply Nat.ltb_lt in H
+  | H : Nat.ltb _ _ = false |- _ => apply Nat.ltb_ge in H
+  end.
 
-Lemma gen_child_update_ok : forall cis c, gen_child_update cis c = child_update cis c 0%nat.
-Proof. reflexivity. Qed.
+Ltac simp_bool := cbn [negb andb orb fst snd fv_diff fv_nearest fv_done] in *.
+
+Ltac split_atom :=
+  match goal with
+  | |- context [Z.ltb ?x ?y] => destruct (Z.ltb x y) eqn:?
+  | |- context [Z.leb ?x ?y] => destruct (Z.leb x y) eqn:?
+  | |- context [Z.gtb ?x ?y] => destruct (Z.gtb x y) eqn:?
+  | |- context [Z.geb ?x ?y] => destruct (Z.geb x y) eqn:?
+  | |- context [Z.eqb ?x ?y] => destruct (Z.eqb x y) eqn:?
+  | |- context [Nat.eqb ?x ?y] => destruct (Nat.eqb x y) eqn:?
+  | |- context [Nat.ltb ?x ?y] => destruct (Nat.ltb x y) eqn:?
+  | |- context [c_visible ?c] => destruct (c_visible c) eqn:?
+  | |- context [Bool.eqb ?x ?y] => destruct (Bool.eqb x y) eqn:?
+  end.
+
+Ltac leaf := first [reflexivity | (exfalso; b2p; lia) | (b2p; f_equal; lia) | (b2p; congruence)].
+
+Ltac tree := simp_bool; first [leaf | (split_atom; tree)].
 
 Lemma gen_abs_duration_ok : forall d, gen_abs_duration d = Z.abs d.
-Proof. intros d. unfold gen_abs_duration. destruct (d <? 0) eqn:E; lia. Qed.
+Proof. intros d. unfold gen_abs_duration. destruct (d <? 0) eqn:E; b2p; lia. Qed.
+
+Lemma gen_less_index_ok : forall a b, gen_less_index a b = less a b.
+Proof. intros a b. unfold gen_less_index, less. autounfold with genhelpers. cbv zeta. tree. Qed.
+
+Lemma gen_update_timestamp_ok : forall cis ts com, gen_update_timestamp cis ts com = update_timestamp cis ts com.
+Proof. intros. unfold gen_update_timestamp, update_timestamp. autounfold with genhelpers. cbv zeta. tree. Qed.
+
+Lemma gen_child_update_ok : forall cis c, gen_child_update cis c = child_update cis c 0%nat.
+Proof.
+  intros. unfold gen_child_update, child_update. autounfold with genhelpers. cbv zeta.
+  rewrite ?gen_update_timestamp_ok. reflexivity.
+Qed.
 
 Lemma gen_time_threshold_ok : forall cis c esp, gen_time_threshold cis c esp = time_threshold cis c esp.
-Proof. reflexivity. Qed.
+Proof. intros. unfold gen_time_threshold, time_threshold. autounfold with genhelpers. cbv zeta. tree. Qed.
 
 Lemma gen_time_threshold_parent_ok : forall cis p esp,
   gen_time_threshold_parent cis p esp = time_threshold_parent cis p esp.
-Proof. reflexivity. Qed.
+Proof. intros. unfold gen_time_threshold_parent, time_threshold_parent. autounfold with genhelpers. cbv zeta. tree. Qed.
 
 (* two folds whose states stay related *)
 Lemma fold_left_rel : forall A B C (R : A -> B -> Prop) (f : A -> C -> A) (g : B -> C -> B),
@@ -62,19 +96,11 @@ Proof.
   end.
   - apply (fold_left_rel _ _ _ (fun gst st => gst = fv_tuple st)); [|reflexivity].
     intros gst st c ->. destruct st as [d n b]. unfold fv_tuple, fv_step, vis_opt.
-    cbn [fv_diff fv_nearest fv_done]. rewrite gen_abs_duration_ok.
+    autounfold with genhelpers. cbn [fv_diff fv_nearest fv_done]. cbv zeta.
+    rewrite ?gen_abs_duration_ok.
     destruct b; [reflexivity|].
-    destruct (c_committed c <? cis).
-    + destruct (c_timestamp c - (at_ - eps) >? 2 * eps); [reflexivity|].
-      destruct (c_timestamp c - (at_ - eps) <? 0); [destruct (c_visible c); reflexivity|].
-      destruct ((d <? 0) || (Z.abs (c_timestamp c - (at_ - eps) - eps) <=? d)); [|reflexivity].
-      destruct (c_visible c); cbn [negb].
-      * rewrite andb_false_r. cbn [andb].
-        destruct (c_timestamp c - (at_ - eps) <=? eps); [reflexivity|].
-        destruct (c_changeset c =? cid); reflexivity.
-      * rewrite andb_true_r.
-        destruct ((d =? -1) && (c_timestamp c - (at_ - eps) =? 0)); reflexivity.
-    + destruct (c_committed c >? at_); [reflexivity|]. destruct (c_visible c); reflexivity.
+    (* |x| as a case split, so that the leaves are linear *)
+    destruct (Z.abs_spec (c_timestamp c - (at_ - eps) - eps)) as [[Ha ->]|[Ha ->]]; tree.
   - unfold fv_tuple. reflexivity.
 Qed.
 
@@ -100,8 +126,9 @@ Proof.
     assert (fold_left g cl s0 = fold_left (vb_step cis end_) cl (None, false)) as ->
   end.
   - apply (fold_left_rel _ _ _ (fun a b => a = b)); [|reflexivity].
-    intros a b c ->. destruct b as [l d]. unfold vb_step. cbn [fst snd]. rewrite gen_time_threshold_ok.
-    destruct d; [reflexivity|]. destruct (negb (time_threshold cis c 0 <? end_)); reflexivity.
+    intros a b c ->. destruct b as [l d]. unfold vb_step. autounfold with genhelpers. cbn [fst snd]. cbv zeta.
+    rewrite ?gen_time_threshold_ok.
+    destruct d; [reflexivity|]. generalize (time_threshold cis c 0). intros tt. tree.
   - rewrite <- vb_fold_ok. destruct (fold_left (vb_step cis end_) cl (None, false)). reflexivity.
 Qed.
 
@@ -118,20 +145,26 @@ Proof.
   cbn [length nth_error]. rewrite IH. reflexivity.
 Qed.
 
+(* options and results are split like the atomic tests *)
+Ltac split_match :=
+  match goal with
+  | |- context [match ?x with Some _ => _ | None => _ end] => is_var x; destruct x
+  | |- context [match find_visible ?a ?b ?c ?d ?e with Some _ => _ | None => _ end] => destruct (find_visible a b c d e)
+  | |- context [match version_before ?a ?b ?c with Some _ => _ | None => _ end] => destruct (version_before a b c)
+  | |- context [match last ?a ?b with Some _ => _ | None => _ end] => destruct (last a b)
+  end.
+
+Ltac rw_gen := rewrite ?gen_find_visible_ok, ?gen_version_before_ok, ?get_at_last,
+                        ?gen_time_threshold_parent_ok, ?gen_time_threshold_ok.
+
+Ltac tree2 := rw_gen; simp_bool; cbn [res_map]; first [leaf | (split_match; tree2) | (split_atom; tree2)].
+
 Lemma gen_next_version_index_ok : forall cis current cl np o,
   gen_next_version_index cis current cl np o = res_map Z.of_nat (next_version_index cis current cl np o).
 Proof.
   intros cis current cl np o. unfold gen_next_version_index, next_version_index.
-  destruct np as [n|].
-  - rewrite gen_find_visible_ok.
-    change gen_time_threshold_parent with time_threshold_parent. change gen_time_threshold with time_threshold.
-    destruct (find_visible cis cl (p_changeset n) (time_threshold_parent cis n 0) (o_threshold o)) as [nx|].
-    + destruct (time_threshold cis nx 0 <? time_threshold_parent cis n (- o_threshold o)); cbn [res_map]; f_equal; lia.
-    + rewrite gen_version_before_ok. destruct current as [cur|].
-      * destruct (negb (time_threshold_parent cis n (- o_threshold o) >? time_threshold cis cur 0)); [reflexivity|].
-        destruct (version_before cis cl (time_threshold_parent cis n (- o_threshold o))); cbn [res_map]; f_equal; lia.
-      * destruct (version_before cis cl (time_threshold_parent cis n (- o_threshold o))); cbn [res_map]; f_equal; lia.
-  - rewrite get_at_last. destruct (last (map Some cl) None); cbn [res_map]; [f_equal; lia|reflexivity].
+  autounfold with genhelpers. cbv zeta.
+  destruct np as [n|]; destruct current as [cur|]; tree2.
 Qed.
 
 (* the glue of annotate/way.go and annotate/relation.go: SetChild writes version, changeset and
